@@ -448,7 +448,8 @@ func (vc *FnVC) havocExpr(cfr *frame, st, pre *state, m Expr, vars map[string]va
 				srt := vc.hsort(h)
 				inner := strings.TrimSuffix(strings.TrimPrefix(srt, "(Array Int "), ")")
 				n := vc.freshConst("mapc", inner)
-				vc.hset(st, h, fmt.Sprintf("(store %s %s %s)", vc.hget(st, h), mv.t, n))
+				// a nil map has no contents to modify
+				vc.hset(st, h, fmt.Sprintf("(ite (= %s 0) %s (store %s %s %s))", mv.t, vc.hget(st, h), vc.hget(st, h), mv.t, n))
 			}
 			ln := fmt.Sprintf("(select %s %s)", vc.hget(st, l), mv.t)
 			vc.assume("true", fmt.Sprintf("(>= %s 0)", ln))
